@@ -433,20 +433,31 @@ def arr_setitem(ctx, a, idx, val, op=None):
                 v = val.data[n_] if isinstance(val, Vec) else (val[n_] if isinstance(val, (list, tuple)) else val)
                 a.data[k] = comb(a.data[k], v)
             return
+        if isinstance(idx, (int, SliceVal)) and a.ndim == 2:
+            idx = (idx, SliceVal(None, None, None))
         if isinstance(idx, tuple) and a.ndim == 2 and len(idx) == 2:
             i, j = idx
             n, m = a.shape
-            for r in range(n):
-                for c in range(m):
-                    sel_r = _sel(ctx, i, r, n)
-                    sel_c = _sel(ctx, j, c, m)
-                    sel = z_and(sel_r, sel_c)
-                    if sel is False:
-                        continue
+            rows = [r for r in range(n) if _sel(ctx, i, r, n) is not False]
+            cols = [c for c in range(m) if _sel(ctx, j, c, m) is not False]
+            if isinstance(val, (list, tuple)):
+                val = vec_from_nested(val)
+            for kr, r in enumerate(rows):
+                for kc, c in enumerate(cols):
+                    sel = z_and(_sel(ctx, i, r, n), _sel(ctx, j, c, m))
                     v = val
                     if isinstance(val, Vec):
-                        v = _bget(val, (r, c), (n, m)) if val.ndim == 2 else (
-                            val.data[c] if val.shape[0] == m else val.data[r])
+                        if val.ndim == 2:
+                            v = vget(val, (kr if val.shape[0] > 1 else 0, kc if val.shape[1] > 1 else 0))
+                        elif isinstance(i, int) or (isinstance(i, SliceVal) and len(rows) == 1 and len(val.data) == len(cols)
+                                                    and not isinstance(j, int)):
+                            v = val.data[kc]              # a row (or part of it) is assigned
+                        elif isinstance(j, int):
+                            v = val.data[kr]              # a column (or part of it) is assigned
+                        elif len(val.data) == len(cols):
+                            v = val.data[kc]              # broadcast of a row over the selected rows
+                        else:
+                            raise_("ValueError", "could not broadcast input array into the selected shape")
                     a.data[r * m + c] = z_ite(sel, comb(a.data[r * m + c], v), a.data[r * m + c])
             return
         if is_z3(idx) and a.ndim == 1:
